@@ -273,7 +273,7 @@ class JointRecurrencePlot(RecurrencePlot):
             #     recurrence_y[:N+self.lag, :N+self.lag]
             self.JR = recurrence_y[:N+self.lag, :N+self.lag] * \
                 recurrence_x[-self.lag:N, -self.lag:N]
-        self.N = N
+        self.N = self.JR.shape[0]
 
     def set_fixed_threshold_std(self, threshold_std):
         """
@@ -336,4 +336,4 @@ class JointRecurrencePlot(RecurrencePlot):
             #     recurrence_y[:N+self.lag, :N+self.lag]
             self.JR = recurrence_y[:N+self.lag, :N+self.lag] * \
                 recurrence_x[-self.lag:N, -self.lag:N]
-        self.N = N
+        self.N = self.JR.shape[0]
